@@ -320,6 +320,12 @@ def cmInsert (cl : Clusters) (k : Nat) (v : List Nat) : Clusters :=
 /-- `HashMap::extend` -/
 def cmExtend (cl : Clusters) (new : Clusters) : Clusters := new.foldl (fun a kv => cmInsert a kv.1 kv.2) cl
 
+/-- `medoid.clone().or_else(|| cluster_data.first().cloned())` -/
+def keyOf (medoid : Option Nat) (data : List Nat) : Option Nat :=
+  match medoid with
+  | some m => some m
+  | none => data.head?
+
 /-- one pass of the `scan` closure of `create_hierarchical_kmedoids` over `current_clusters`;
     `split data` stands for `create_kmedoids(&data, 2, distance_fn)`.
     Returns `(current_tier_clusters, next_tier_clusters)`. -/
@@ -328,7 +334,7 @@ def hierStep (split : List Nat → Clusters) :
   | [], acc => acc
   | (medoid, data) :: rest, (tier, next) =>
     if data.length < 2 then
-      match (match medoid with | some m => some m | none => data.head?) with
+      match keyOf medoid data with
       | none => hierStep split rest (tier, next)
       | some key => hierStep split rest (cmInsert tier key data, next ++ [(medoid, data)])
     else
